@@ -199,8 +199,8 @@ pub fn run_c04(a: &Args, shared: &SharedReport) {
         let mut r = shared.lock().unwrap();
         r.rule = "every value of each family within the bound, built in every insertion order/capacity/hasher instance; all unordered pairs within a family are decided by grouping on the recorded hasher stream, on the real fingerprint and on the harness's component-wise identity; non-trivial = the family has >= 2 distinct identities".into();
         r.bounds = json!({"sets": "HashableHashSet<u8> over {0,1,2}", "maps": "HashableHashMap<u8,u8> keys {0,1,2} values {0,1}", "nesting": "set of sets, map of sets, (S,S), [S;2], Vec<S> len<=3, struct of two sets, Vec<Timers> len<=3",
-            "networks": if th {"<=3 envelopes per kind"} else {"<=2 envelopes per kind"}, "clocks": "len<=3 components<=2", "actor_states": "all constructed states per kind (pairs) + all reachable states of the zoo per cfg (pairs) + systems of 1..130 actors differing in one per-actor component at every position",
-            "testers": if th {"both testers over Register<char>: every well-formed history of 2 threads <=3 ops and 3 threads <=2 ops, start objects i/a (+b)"} else {"both testers over Register<char>: every well-formed history of 2 threads <=3 ops, start objects i/a (+b)"}});
+            "networks": if th {"<=4 envelopes per kind"} else {"<=2 envelopes per kind"}, "clocks": "len<=3 components<=2", "actor_states": "all constructed states per kind (pairs) + all reachable states of the zoo per cfg (pairs) + systems of 1..130 actors differing in one per-actor component at every position",
+            "testers": if th {"both testers over Register<char>: every well-formed history of 2 threads <=4 ops and 3 threads <=3 ops, start objects i/a (+b)"} else {"both testers over Register<char>: every well-formed history of 2 threads <=3 ops, start objects i/a (+b)"}});
     }
     let mut fam_idx = 0u64;
     let mut mine = |shared: &SharedReport, f: &mut dyn FnMut(&mut Report)| {
@@ -340,7 +340,7 @@ pub fn run_c04(a: &Args, shared: &SharedReport) {
     for kind in [NetKind::Ordered, NetKind::NonDup, NetKind::Dup] {
         mine(shared, &mut |r| {
             let mut vals = Vec::new();
-            for net in networks(kind, if th { 3 } else { 2 }) {
+            for net in networks(kind, if th { 4 } else { 2 }) {
                 let canon = format!("{:?}", net);
                 vals.push((net_to_real(&net), canon.clone()));
                 // unordered kinds: reversed send order builds the same network
@@ -457,7 +457,7 @@ pub fn run_c04(a: &Args, shared: &SharedReport) {
     // 8b. networks side by side (two networks of one kind in a tuple)
     for kind in [NetKind::Ordered, NetKind::NonDup, NetKind::Dup] {
         mine(shared, &mut |r| {
-            let nets = networks(kind, if th { 2 } else { 1 });
+            let nets = networks(kind, if th { 3 } else { 1 });
             let mut vals = Vec::new();
             for a in &nets {
                 for b in &nets {
@@ -537,7 +537,7 @@ pub fn run_c04(a: &Args, shared: &SharedReport) {
     for threads in if th { vec![2u8, 3u8] } else { vec![2u8] } {
         for init in ['i', 'a'] {
             mine(shared, &mut |r| {
-                let max_ops = if threads == 2 { 3 } else { 2 };
+                let max_ops = if threads == 2 { if th { 4 } else { 3 } } else { 3 };
                 let mut lin_vals = Vec::new();
                 let mut sc_vals = Vec::new();
                 tester_histories(threads, max_ops, &mut |h| {
